@@ -869,3 +869,55 @@ pub fn tricky_text_wire(lens: &[usize]) -> Vec<(String, Vec<u8>)> {
     }
     out
 }
+
+// ------------------------------------------------------------------ further generic dimensions (after seeded round 6)
+
+/// Names that coincide with identifiers of the library's own data model (struct fields, enum variants): a carrier
+/// format that flattens or tags by name collides exactly on these.
+pub const STRUCTURAL_NAMES: [&str; 22] = [
+    "tag", "name", "value", "attributes", "groups", "header", "version", "operation_or_status", "request_id", "payload", "data", "type", "Integer", "Keyword", "Array",
+    "Collection", "Other", "language", "text", "min", "$value", "0",
+];
+
+/// Length ladder: every multiple of 1024 and of 1000 up to the 16-bit maximum, each with its two neighbours -
+/// whatever block size a reader or writer uses internally, a field that is an exact multiple of it is in here.
+pub fn length_ladder() -> Vec<usize> {
+    let mut v = std::collections::BTreeSet::new();
+    for step in [1000usize, 1024] {
+        let mut l = step;
+        while l <= 65535 {
+            for d in [-1i64, 0, 1] {
+                let x = l as i64 + d;
+                if x >= 1 && x <= 65535 {
+                    v.insert(x as usize);
+                }
+            }
+            l += step;
+        }
+    }
+    v.insert(65535);
+    v.into_iter().collect()
+}
+
+/// One well-formed wire message per ladder length, the long field being an attribute name (pos 0), a text value
+/// (pos 1) or a member name (pos 2); a second small attribute follows so that a short read of the long field
+/// derails what comes after it.
+pub fn ladder_wire(pos: usize) -> Vec<(String, Vec<u8>)> {
+    let mut out = vec![];
+    for l in length_ladder() {
+        let f: Vec<u8> = (0..l).map(|i| b"abcdefghijklmnopqrstuvw"[i % 23]).collect();
+        let mut m = Msg::new(0x0101, 0x0000, 5);
+        let a = match pos {
+            0 => Attr { name: f.clone(), values: vec![Val::Int(1)] },
+            1 => Attr { name: b"t".to_vec(), values: vec![Val::Str(T_TEXT, f.clone())] },
+            _ => Attr { name: b"c".to_vec(), values: vec![Val::Coll(vec![(f.clone(), vec![Val::Int(1)])])] },
+        };
+        m.groups.push(Group { tag: TAG_OPERATION, attrs: vec![a, Attr { name: b"z".to_vec(), values: vec![Val::Bool(true), Val::Int(2)] }] });
+        out.push((format!("ladder[pos={},len={}]", pos, l), encode(&m)));
+    }
+    out
+}
+
+/// values a peer may put into the two mandatory operation attributes (the library treats these attributes specially)
+pub const CHARSETS: [&str; 8] = ["utf-8", "UTF-8", "iso-8859-1", "ISO-8859-1", "us-ascii", "utf-16", "latin1", ""];
+pub const NATURAL_LANGUAGES: [&str; 3] = ["en", "de-CH", ""];
